@@ -2,7 +2,9 @@
 (* Term algebra used by every term-level module.                                   *)
 (*   atom      <<"a", name>>           name a string                               *)
 (*   integer   <<"i", n>>              small integer (|n| < 2^30)                   *)
-(*   opaque    <<"n", id>>             big integer / float carried as a string      *)
+(*   float     <<"f", k>>              the float k/2 (enough to order floats, and      *)
+(*                                     floats against integers, in the standard order) *)
+(*   opaque    <<"n", id>>             big integer / other float carried as a string   *)
 (*   variable  <<"v", k>>              k \in 1..Len(store)                          *)
 (*   compound  <<"c", functor, args>>  args a non-empty sequence of terms           *)
 (* A binding store is a sequence b with b[k] = U (unbound) or a term.              *)
@@ -18,9 +20,11 @@ C(f, args) == <<"c", f, args>>
 IsVar(t) == t[1] = "v"
 IsAtom(t) == t[1] = "a"
 IsInt(t) == t[1] = "i"
-IsNum(t) == t[1] = "i" \/ t[1] = "n"
+IsFloat(t) == t[1] = "f"
+F(k) == <<"f", k>>
+IsNum(t) == t[1] = "i" \/ t[1] = "n" \/ t[1] = "f"
 IsCmp(t) == t[1] = "c"
-IsAtomic(t) == t[1] \in {"a", "i", "n"}
+IsAtomic(t) == t[1] \in {"a", "i", "n", "f"}
 IsCallable(t) == IsAtom(t) \/ IsCmp(t)
 
 Nil == A("[]")
@@ -117,7 +121,7 @@ AtomsSorted == << "!", "+", ",", "-", ".", ";", "=", "[]", "a", "a1", "ab", "b",
 AtomRank(n) == IF \E i \in 1..Len(AtomsSorted) : AtomsSorted[i] = n THEN IndexOf(AtomsSorted, n)
                ELSE Assert(FALSE, <<"atom not in vocabulary", n>>)
 
-Class(t) == CASE IsVar(t) -> 0 [] t[1] = "n" -> 1 [] IsInt(t) -> 2 [] IsAtom(t) -> 3 [] OTHER -> 4
+Class(t) == CASE IsVar(t) -> 0 [] t[1] = "f" -> 1 [] t[1] = "n" -> 5 [] IsInt(t) -> 2 [] IsAtom(t) -> 3 [] OTHER -> 4
 
 Sgn(d) == IF d < 0 THEN -1 ELSE IF d > 0 THEN 1 ELSE 0
 
@@ -128,7 +132,7 @@ CmpL(wl) ==
   ELSE LET x == wl[1][1] y == wl[1][2] rest == Tail(wl) IN
        IF Class(x) # Class(y) THEN Sgn(Class(x) - Class(y))
        ELSE CASE IsVar(x) -> (IF x[2] = y[2] THEN CmpL(rest) ELSE Sgn(x[2] - y[2]))
-              [] IsInt(x) -> (IF x[2] = y[2] THEN CmpL(rest) ELSE Sgn(x[2] - y[2]))
+              [] IsInt(x) \/ IsFloat(x) -> (IF x[2] = y[2] THEN CmpL(rest) ELSE Sgn(x[2] - y[2]))
               [] IsAtom(x) -> (IF x[2] = y[2] THEN CmpL(rest) ELSE Sgn(AtomRank(x[2]) - AtomRank(y[2])))
               [] IsCmp(x) -> (IF Len(x[3]) # Len(y[3]) THEN Sgn(Len(x[3]) - Len(y[3]))
                               ELSE IF x[2] # y[2] THEN Sgn(AtomRank(x[2]) - AtomRank(y[2]))
@@ -158,6 +162,14 @@ InsertSorted(s, t, dedupe) ==
        ELSE <<s[1]>> \o InsertSorted(Tail(s), t, dedupe)
 RECURSIVE SortTerms(_,_)
 SortTerms(s, dedupe) == IF s = <<>> THEN <<>> ELSE InsertSorted(SortTerms(SubSeq(s, 1, Len(s)-1), dedupe), s[Len(s)], dedupe)
+
+\* keysort/2: stable insertion by the key of Key-Value pairs
+RECURSIVE InsertByKey(_,_)
+InsertByKey(s, t) == IF s = <<>> THEN <<t>>
+                     ELSE IF CmpL(<< <<t[3][1], s[1][3][1]>> >>) < 0 THEN <<t>> \o s
+                     ELSE <<s[1]>> \o InsertByKey(Tail(s), t)          \* equal keys: the later element stays behind the earlier one
+RECURSIVE KeySortTerms(_)
+KeySortTerms(s) == IF s = <<>> THEN <<>> ELSE InsertByKey(KeySortTerms(SubSeq(s, 1, Len(s) - 1)), s[Len(s)])
 
 \* variant test of two resolved terms
 Variant(x, y) == Renum(x, TermVars(x), 0) = Renum(y, TermVars(y), 0)
